@@ -44,6 +44,9 @@ type Step struct {
 	OnFail  string `json:"onfail"`  // stop (return the error) | ignore | panic
 	Wrap    bool   `json:"wrap"`    // stop: return fmt.Errorf("...: %w", err) instead of err itself
 	Inner   int    `json:"inner"`   // inner: thread run inline here (a transaction on the pool inside the body)
+	// inner: the context handed to the nested call: background | body (the very context the body was
+	// given) | derived (WithCancel(WithValue(<the body's context>)))
+	InnerCtx string `json:"innerctx"`
 }
 
 type Thread struct {
@@ -106,6 +109,7 @@ type TOut struct {
 	AccSame   bool     `json:"acc_same"` // ... each with the very error Transact returned
 	Rejected  bool     `json:"rejected"` // circuit breaker refused the call
 	ConnID    int      `json:"conn_id"`  // connection of this thread's Begin (0: none)
+	DeadAtCall bool    `json:"dead_at_call"` // the context handed to the call was already done
 }
 
 type Out struct {
@@ -403,6 +407,8 @@ type thr struct {
 	bodyRet  error
 	retErr   error
 	finished bool
+	parent   context.Context // inline threads: the context the nested call is derived from
+	shareCtx bool            // ... or is handed as it is
 }
 
 type runner struct {
@@ -471,6 +477,8 @@ func (r *runner) setup() {
 func (r *runner) gate(t int) {
 	th := r.threads[t]
 	if th.nogate {
+		// run inline from the body of another transaction: the quanta are recorded as they happen
+		r.esched = append(r.esched, t)
 		return
 	}
 	r.parked <- struct{}{}
@@ -499,7 +507,9 @@ func (r *runner) quantum(t int) bool {
 	}
 }
 
-func (r *runner) runInline(j int) {
+type nestedKey struct{}
+
+func (r *runner) runInline(j int, bodyCtx context.Context, mode string) {
 	if j < 0 || j >= len(r.threads) {
 		return
 	}
@@ -511,8 +521,12 @@ func (r *runner) runInline(j int) {
 	r.p.cur = j
 	th.nogate = true
 	th.out.Started = true
-	for i := 0; i < len(th.spec.Steps)+2; i++ {
-		r.esched = append(r.esched, j)
+	r.esched = append(r.esched, j)
+	switch mode {
+	case "body":
+		th.parent, th.shareCtx = bodyCtx, true
+	case "derived":
+		th.parent = context.WithValue(bodyCtx, nestedKey{}, j)
 	}
 	go r.threadMain(j)
 	<-th.done
@@ -548,12 +562,22 @@ func (r *runner) threadMain(t int) {
 			r.parked <- struct{}{}
 		}
 	}()
-	callCtx, cancel := context.WithCancel(context.Background())
+	parent := th.parent
+	if parent == nil {
+		parent = context.Background()
+	}
+	callCtx, cancel := context.WithCancel(parent)
+	if th.shareCtx {
+		// the very context of the enclosing body: nobody can cancel it while this call runs
+		cancel()
+		callCtx, cancel = parent, func() {}
+	}
 	th.cancel = cancel
 	defer cancel()
 	if sp.Dead {
 		cancel()
 	}
+	th.out.DeadAtCall = callCtx.Err() != nil
 	body := r.body(t)
 	var err error
 	switch sp.API {
@@ -759,7 +783,7 @@ func (r *runner) body(t int) func(context.Context, sqlx.Session) error {
 			case "cancel":
 				th.cancel()
 			case "inner":
-				r.runInline(st.Inner)
+				r.runInline(st.Inner, ctx, st.InnerCtx)
 			}
 			if err == nil {
 				continue
